@@ -20,16 +20,16 @@ TEXT = {
     "C03": {
         "level": "Machine-checked theorems over every serde data-model value (mutual structural induction) and every buffer length: the Rust-shaped serializer model (compound states, Some(0) early close, "
                  "run-splitting escape loop, key serializer) yields exactly the reference compact rendering when it fits, the key error when the bytes before it fit, BufferTooSmall otherwise; the 256-entry "
-                 "ESCAPE table extracted from the current source is checked entry by entry; no emitted byte is below 0x20 (no NUL inside a frame); non-string/int keys are refused. "
+                 "ESCAPE table extracted from the current source is checked entry by entry; no emitted byte is below 0x20 (no NUL inside a frame); the output is well-formed UTF-8 whenever the strings are (escaping rewrites ASCII bytes only, into ASCII, and copies every multi-byte sequence - all 256 table entries checked); non-string/int keys are refused. "
                  "Reference-vs-serde_json and model-vs-code are checked three-way on ~32k (quick) / ~2M (thorough) values incl. every Unicode scalar.",
         "design_ref": "DESIGN.md §5 C03, §4.4",
         "note": "Trusted: Lean kernel; extractor for ESCAPE/HEX_DIGITS; the recording serializer that ships Rust values as data-model events; serde_json as the meaning of `compact JSON`; itoa/ryu digit texts opaque; "
-                "UTF-8 validity is oracle-checked per explored value, not a theorem.",
+                "UTF-8 validity: theorem C03_valid_utf8 (strings assumed well-formed as Rust strs, number texts ASCII) and oracle-checked per explored value.",
         "technique": "Lean 4 proof (capacity-respecting action algebra, mutual structural induction; decide over the extracted 256-entry table); three-way differential run zlink / serde_json / model",
     },
     "C08": {
         "level": "Machine-checked refinement theorem over the server-loop model: for every event sequence (connections, byte arrivals split anywhere, closes, server polls), any number of connections, every well-behaved connection "
-                 "wherever it lives has had exactly its first k calls consumed, in order, once each, and its output (plus unwritten items of an open stream) equals the sequential per-connection reference; oneway calls answer nothing. "
+                 "wherever it lives has had exactly its first k calls consumed, in order, once each, and its output (plus unwritten items of an open stream) equals the sequential per-connection reference; oneway calls answer nothing; and in every reachable idle state (no select branch can progress) every well-behaved connection whose bytes have all arrived has had ALL its calls answered (C08_quiescent). "
                  "Differential run of the real Server::run future (manual executor, scripted listener/sockets) vs the model on 4k/60k schedules incl. the global service-invocation order.",
         "design_ref": "DESIGN.md §5 C08, §4.6", "note": RX_NOTE + " Server loop: Zlink/Model/Server.lean tied to server/mod.rs + select_all.rs by scenario `srv`; service = fixed test family; select_biased!/fuse polling order assumed as documented.",
         "technique": "Lean 4 proof (global invariant = conjunction of per-connection refinement invariants, preserved by every loop iteration and event); model-vs-implementation correspondence run",
@@ -42,7 +42,7 @@ TEXT = {
     },
     "C10": {
         "level": "Machine-checked: for every event sequence, every streaming connection's sent output followed by its unsent items equals the reference (items in order with the service's continues flags); the hand-back of a finished stream and the "
-                 "drop of an unwritable subscription preserve every other connection's invariant; a ready call on another connection is served before any stream item. Differential run with streaming calls of 0..4 items, pipelined calls before/behind, write failures.",
+                 "drop of an unwritable subscription preserve every other connection's invariant; a ready call on another connection is served before any stream item. Differential run with streaming calls of 0..4 items under four flag patterns of the test service (conventional, all continuing, alternating, unflagged), pipelined calls before/behind, write failures.",
         "design_ref": "DESIGN.md §5 C10", "note": RX_NOTE + " Same server model as C08; stream items always ready (stream::iter).",
         "technique": "Lean 4 proof (same global invariant, stream bookkeeping `out ++ pending = reference`); model-vs-implementation correspondence run",
     },
@@ -56,7 +56,7 @@ TEXT = {
     "C11": {
         "level": "PARTIAL by necessity. Machine-checked on a model of the physical receive buffer (bytes are not cleared on cursor reset; growth = possible reallocation): the property's full statement is FALSE (counterexample: two replies in separate reads, first item held), "
                  "and the part that holds is proved (a receive that finds its frame already buffered touches neither bytes nor allocation, so items of replies that arrived together stay intact). "
-                 "The real chain reply stream is run with every item held while later ones are obtained; the model predicts exactly which held &str change (1500/20000 cases, 0 disagreements).",
+                 "The real chain reply stream is run with every item held while later ones are obtained, including all-buffered batches with one reply of 0.3..12 KiB (growth before the first item is yielded); the model predicts exactly which held &str change (1500/20000 cases, 0 disagreements).",
         "design_ref": "DESIGN.md §5 C11", "note": RX_NOTE + " Known finding: ReplyStream lets safe code keep a borrow of the receive buffer across later receives.",
         "technique": "Lean 4 proof (counterexample by kernel evaluation; frame-already-buffered lemma) on a physical-buffer model; correspondence run holding borrowed items across later receives",
     },
@@ -82,17 +82,14 @@ TEXT = {
         "technique": "Lean 4 proof over a translator-extracted impl table (table agreement by kernel evaluation, lifted by induction) + compile-and-run correspondence over a generated derive corpus; round trip by Lean oracle on the implementation's text",
     },
     "C13": {
-        "level": "PARTIAL proof + exhaustive-style correspondence. Machine-checked: parsing is total with two outcomes (the model has no panic path; the real parser is run under catch_unwind on every text); the type-name and field-name lexers accept exactly "
-                 "the grammar's regular expressions with longest match (soundness and completeness). The parser model is a function-by-function port (winnow combinator semantics included) that agrees with the real parser on ~65k (quick) / ~1.5M (thorough) "
-                 "legal, truncated, mutated and random texts; an independent Lean oracle (expected tree by construction; tokens + well-formedness for accepted mutants) judges the implementation's verdicts.",
-        "design_ref": "DESIGN.md §5 C13", "note": "Trusted: Lean kernel; the port of winnow's combinators and str::trim; the generator's construction of expected trees; the tokenizer oracle. The syntactic completeness theorem is not yet proved (stated as C13_complete_statement).",
-        "technique": "Lean 4 proof (lexer exactness by induction; kernel-evaluated parses) on a function-by-function port of the parser; model-vs-implementation correspondence with an independent oracle",
+        "level": "Proof of the completeness direction for every layout + exhaustive-style correspondence. Machine-checked (unbounded in names, nesting depth, numbers of members / fields / variants / comments, and layout): every text of the grammar - given as an inductive relation between descriptions and texts with gaps of space/tab/CR/LF wherever tokens meet inside parentheses, around `:` `,` `->`, after keywords and between members, comment lines with arbitrary blanks in front of the interface, members, fields, parameters and custom-enum variants, members of the three kinds in any interleaving, optional gaps around the text - parses to exactly the description it denotes (C13_layout; C13_complete for the canonical text); the three name lexers are exact resp. complete for the grammar's regular expressions with longest match; parsing is total with two outcomes (no panic path in the model; the real parser runs under catch_unwind). PARTIAL: the soundness direction (whatever is accepted is grammatical and nothing of it is ignored) beyond the lexers is decided per explored text by an independent Lean oracle on the implementation's verdicts, on ~65k (quick) / ~1.5M (thorough) legal, truncated, mutated and random texts on which the function-by-function parser port and the real parser must also agree.",
+        "design_ref": 'DESIGN.md §5 C13, §11.7', "note": "Trusted: Lean kernel; the port of winnow's combinators and str::trim (tied to the code by the correspondence run); the generator's construction of expected trees; the tokenizer oracle. Not proved: rejection of ungrammatical texts in general (soundness), layout comments in slots the description does not have, form feed / Unicode white space.",
+        "technique": 'Lean 4 proof (inductive grammar relation; induction on parser fuel with a type-size measure; lexer exactness by induction; mutual structural recursion on derivations) on a function-by-function port of the parser; model-vs-implementation correspondence with an independent oracle',
     },
     "C14": {
-        "level": "PARTIAL proof + correspondence. Machine-checked: a rendered comment line parses back to exactly its content; the known finding (enum with a commented variant) is a theorem about the model; whole descriptions with comments round-trip in kernel-evaluated examples. "
-                 "Renderer and parser models agree with Display / Interface::try_from byte for byte and tree for tree on 4k (quick) / 60k (thorough) constructor-built descriptions (owned and borrowed forms), with the round-trip oracle evaluated on the implementation's observations.",
-        "design_ref": "DESIGN.md §5 C14", "note": "Trusted: as C13 plus the model of the Display impls. The whole-description round-trip theorem is not yet proved (stated as C14_statement). Known findings: commented enum variants (custom and inline).",
-        "technique": "Lean 4 proof (comment layer; counterexample by kernel evaluation) on renderer + parser models; round-trip correspondence run through the public constructors",
+        "level": 'Proof + correspondence. Machine-checked (unbounded): for every well-formed description without commented enum variants, parsing its Display text yields exactly the description and re-rendering reproduces the text, comments included (C14_parse_render, C14_render_fixpoint); the GetInterfaceDescription exchange - Display text through the JSON string escaping of the extracted table, read back by a JSON string reader, parsed - returns exactly the description (C14_exchange, with unescape(escape s) = s for every byte string). The excluded class is exactly the listed finding (a commented enum variant renders in a form the parser refuses; counterexample theorem). Renderer and parser models agree with Display / Interface::try_from byte for byte and tree for tree on 4k / 60k constructor-built descriptions, and the real exchange (send_reply -> proxy call -> parse) is predicted byte for byte on 1.5k / 20k descriptions whose comments carry quotes, backslashes, control characters and non-ASCII text.',
+        "design_ref": 'DESIGN.md §5 C14, §11.7', "note": "Trusted: as C13 plus the model of the Display impls; the JSON string reader is a model of the part of serde_json's string parser that zlink's escaping exercises (tied to serde_json by scenario idlx). Known findings: commented enum variants (custom and inline).",
+        "technique": 'Lean 4 proof (parse∘render = id by induction on parser fuel; escape/unescape round trip over all 256 extracted table entries; counterexample by kernel evaluation) on renderer + parser models; round-trip correspondence runs through the public constructors and through the real exchange',
     },
     "C19": {
         "level": "PARTIAL. Machine-checked: the write-all loop hands the whole buffer to the pipe for every partial-write behaviour; composed with the C02 refinement and C01 framing theorem, for every message list, partial-write schedule, read-size schedule and growth step the peer's receives return exactly the messages sent, in order, then EOF; "
